@@ -42,9 +42,22 @@ theorem construct_ok (cls : PyCls) (sh : Shape) (r : Res) (h : construct cls sh 
     · simp only [hu, if_true] at h; cases h; exact ⟨rfl, hu, fun h' => absurd h' hq⟩
     · simp [hu] at h
 
-theorem viewOp_nonreshape (cls : PyCls) (s : Shape) (op : ViewOp) (hnr : ∀ t, op ≠ .reshape t) :
+theorem viewOp_nonreshape (cls : PyCls) (s : Shape) (op : ViewOp) (hnr : ∀ t, op ≠ .reshape t)
+    (hne : ∀ k, op ≠ .expandDims k) :
     viewOp cls s op = match viewShape s op with | .error e => .error e | .ok s' => .ok ⟨cls, s'⟩ := by
-  cases op <;> first | rfl | exact absurd rfl (hnr _)
+  cases op <;> first | rfl | exact absurd rfl (hnr _) | exact absurd rfl (hne _)
+
+/-- `np.expand_dims` always adds a dimension -/
+theorem viewOp_expandDims (cls : PyCls) (s : Shape) (k : Nat) (r : Res)
+    (h : viewOp cls s (.expandDims k) = .ok r) :
+    r.shape ≠ [] ∧ r.cls = (if cls.isQuantity then .uarray else cls) := by
+  simp only [viewOp, expandDims] at h
+  split at h
+  · cases h
+  · rename_i s' hs'
+    split at hs'
+    · cases hs'; cases h; simp
+    · cases hs'
 
 /-- every view-making method other than `repeat` keeps a 0-d object at one element -/
 theorem viewShape_scalar (op : ViewOp) (s' : Shape) (hnr : ∀ t, op ≠ .reshape t)
